@@ -345,7 +345,8 @@ theorem step_execBrowse_new (s : State) (ty : BList) (d : Nat) (co : Bool) (ch :
     (hkb : KeyOK (some (0, ty, ch))) : Step now cmds KeyOK OK s (execBrowse s now false ty d co ch).1 := by
   have h0 : Step now cmds KeyOK OK s
       { s with reruns := s.reruns.filter (fun r => !isBrowseOf ty r),
-               queriers := (ty, ch) :: s.queriers.filter (fun q => q.1 != ty) } := by
+               queriers := (ty, ch) :: s.queriers.filter (fun q => q.1 != ty),
+               cacheOnly := if co then insertSet s.cacheOnly ty else s.cacheOnly.filter (· != ty) } := by
     refine ⟨⟨[], rfl, fun _ h => by cases h⟩, fun r h => Or.inl (List.mem_filter.mp h).1, fun q h => Or.inl h, ?_, rfl⟩
     intro q hq
     rcases List.mem_cons.mp hq with rfl | hq
@@ -353,10 +354,11 @@ theorem step_execBrowse_new (s : State) (ty : BList) (d : Nat) (co : Bool) (ch :
     · exact Or.inl (List.mem_filter.mp hq).1
   have h1 := h0.trans (step_queryCacheForService _ ty ch hO hk)
   unfold execBrowse
-  simp only [Bool.false_eq_true, if_false]
-  split
-  · exact h1
-  · exact h1.trans (step_addRerun _ _ (.browse ty (Sched.nextDelay d) ch) hOd (by omega) (nextDelay_le d hd) hkb)
+  cases co
+  · simp only [Bool.false_eq_true, if_false] at h1 ⊢
+    exact h1.trans (step_addRerun _ _ (.browse ty (Sched.nextDelay d) ch) hOd (by omega) (nextDelay_le d hd) hkb)
+  · simp only [Bool.false_eq_true, if_false, if_true] at h1 ⊢
+    exact h1
 
 theorem step_execBrowse_rep (s : State) (ty : BList) (d : Nat) (ch : Nat) (hd : 1 ≤ d)
     (hOd : OK (now + d * 1000)) (hkb : KeyOK (some (0, ty, ch))) :
@@ -675,7 +677,7 @@ theorem step_refreshActive (s : State) (hO : ∀ t, RefreshTimer s.cache t → O
     Step now cmds KeyOK OK s (refreshActive s now).1 := by
   unfold refreshActive
   simp only []
-  refine Step.trans (b := { s with cache := (refreshTypes s.cache now (s.queriers.map (·.1))).1 })
+  refine Step.trans (b := { s with cache := (refreshTypes s.cache now (activeTypes s)).1 })
     (Step.of_sub rfl (fun _ h => h) (fun _ h => h) (fun _ h => h) rfl) (step_addTimers _ _ ?_)
   intro t ht
   exact hO t (refreshTypes_timers s.cache now _ _ (cacheAll_born_self s.cache) t (List.mem_eraseDups.mp ht))
